@@ -1,0 +1,12 @@
+//go:build verif
+
+package glyf
+
+// verifLocaRoundTrip is a lemma harness for /verif (gvc): its contract states
+// that decoding an encoded "loca" table gives back the glyph offsets.  It is
+// compiled only with the "verif" build tag and never called.  The parameter i
+// is the (arbitrary) index the contract speaks about.
+func verifLocaRoundTrip(offs []int, glyfData []byte, i int) ([]int, error) {
+	locaData, locaFormat := encodeLoca(offs)
+	return decodeLoca(&Encoded{GlyfData: glyfData, LocaData: locaData, LocaFormat: locaFormat})
+}
